@@ -300,6 +300,14 @@ fn mode_b(rng: &mut Rng, arch: &Arch) -> Built {
             pro.extend(instrs);
             instrs = pro;
         }
+        if i == 0 && !prologue && rng.chance(1, 6) {
+            // a stack switch: the stack pointer is loaded from another register and then aligned
+            feats.insert("sp_switch_mask".into());
+            let k = *rng.pick(&[4u64, 4, 5, 3]);
+            let mut pro = vec![vec![copy(sp.clone(), other_base(rng, arch))], vec![bin(sp.clone(), "INT_AND", sp.clone(), cst(!((1u64 << k) - 1), ptr))]];
+            pro.extend(instrs);
+            instrs = pro;
+        }
         blocks.push(Block { instrs, term });
     }
     // the callee
@@ -594,6 +602,8 @@ pub fn exec(input: &Value) -> Value {
         "n_pcode_ops": sub["term"]["blocks"].as_array().unwrap().iter().map(|b| b["term"]["defs"].as_array().unwrap().len()).sum::<usize>(),
         "n_ir_defs": [count(&stages[0]), count(&stages[1]), count(&stages[2])],
         "optimizer_changed": stages[1] != stages[2],
+        // syntactic tag of the planted shape `SP = COPY R ; SP = SP & mask` in the entry block (keys a known finding)
+        "f_sp_switch_mask": input["feat"].as_array().map_or(false, |a| a.iter().any(|x| x == "sp_switch_mask")),
         "inits": input["inits"], "raw": serde_json::to_string(raw).unwrap(),
     });
     if input["stages"] == json!(true) {
@@ -628,7 +638,7 @@ fn one_input(seed: u64, idx: u64, ninits: usize) -> (Value, bool) {
 }
 
 pub fn gen(out: &mut Out, _sub: &str) {
-    let n = out.size(120, 2400);
+    let n = out.size(96, 720);
     let ninit = 3usize;
     let mut counts = std::collections::BTreeMap::new();
     let mut panics = 0u64;
